@@ -260,6 +260,12 @@ fn soc_update_scaling<const P: u16, const D: usize>(check_sparse: bool) {
     assert!(e2 * e2 * res(&z) == res(&s), "eta_to_the_fourth_is_the_ratio_of_the_residuals");
     let mut work = [Fp::<P>::zero(); D];
     if check_sparse {
+        // over the reals q = w0^2 + |w1|^2 >= 1, so the denominators q, q - 1/(2q) and 2q - 1/q of the sparse
+        // expansion are positive; in a field a sum of squares can vanish (GF(17): w = (3,15,2), q = 0, and the
+        // code's 1/q, u, v collapse to 0 - a false alarm of the first GF(17) run): assumed away here
+        let q = c.w[0] * c.w[0] + w1sq;
+        let two = Fp::<P>::one() + Fp::<P>::one();
+        kani::assume(q.0 != 0 && (two * q * q - Fp::<P>::one()).0 != 0);
         let (su, sv, sdd) = {
             let sd = c.sparse_data.as_ref().unwrap();
             let mut su = [Fp::<P>::zero(); D];
@@ -295,6 +301,13 @@ fn soc_update_scaling<const P: u16, const D: usize>(check_sparse: bool) {
         assert!(dblk[0] == e2 * sdd && dblk[1] == e2, "sparse_diagonal_block_is_eta2_times_diag(d,1,..)");
     }
     kani::cover!(c.w[1].0 != 0 || c.w[2].0 != 0, "scaling point with a nonzero tail");
+    if check_sparse {
+        // over GF(7) the only scaling points at which every nested root of the sparse path exists have v = 0
+        // (the harness is then blind to the coefficient of v): the informative instances are the ones where
+        // this witness is reachable
+        let sd = c.sparse_data.as_ref().unwrap();
+        kani::cover!(P == 7 || sd.v[1].0 != 0 || sd.v[2].0 != 0, "sparse expansion with a nonzero v (required except over GF(7))");
+    }
     kani::cover!(s[1].0 != 0 && z[2].0 != 0 && c.w[1].0 != 0, "opt: interior points with nonzero tails");
 }
 
@@ -317,6 +330,16 @@ pub fn c13_soc5_update_scaling_sparse_p31() {
 #[kani::unwind(7)]
 pub fn c13_soc5_update_scaling_sparse_p7() {
     soc_update_scaling::<7, 5>(true);
+}
+#[kani::proof]
+#[kani::unwind(7)]
+pub fn c13_soc5_update_scaling_sparse_p17() {
+    soc_update_scaling::<17, 5>(true);
+}
+#[kani::proof]
+#[kani::unwind(7)]
+pub fn c13_soc5_update_scaling_sparse_p19() {
+    soc_update_scaling::<19, 5>(true);
 }
 
 /// Jordan algebra: circ_op is the arrow product, inv_circ_op inverts it; affine_ds = lambda o lambda;
